@@ -27,7 +27,7 @@ PROP = {
 MUTATORS = ["add_block", "remove_block", "replace_block", "set-data3D", "set-force_and_torque", "set-force_platforms_data", "set-events", "set-emg"]
 READERS = ["blocks", "get_block-type", "get_block-index", "get_block-out-of-range", "getitem", "data3D", "force_and_torque", "force_platforms_data", "events", "emg",
            "calibrationData", "has_data3D", "has_force_and_torque", "has_events", "has_emg", "has_force_platforms_data", "len", "nBytes", "eq", "eq-bare", "repr", "copy", "copy-into-directory",
-           "iter-first", "iter-zip", "iter-all"]
+           "iter-first", "iter-zip", "iter-all", "object-copies"]
 SETTER_TYPE = {"set-data3D": "data3D", "set-force_and_torque": "force3D", "set-force_platforms_data": "platData", "set-events": "events", "set-emg": "emg"}
 
 
@@ -149,6 +149,7 @@ class Interp:
             else:
                 self.tdf.__exit__(None, None, None)
             self.inside = self.write = self.armed = False
+            self.check_clones()
         elif o == "limited-session":
             # a whole write session during which the operating system does not let the file grow (RLIMIT_FSIZE; a full disk or a quota does
             # the same): the mutation fails, closing the context may fail too - but the session is over, and so is its permission to write
@@ -307,6 +308,18 @@ class Interp:
                 return t[k % max(1, self.N)]
             if which in ("data3D", "force_and_torque", "force_platforms_data", "events", "emg", "calibrationData") or which.startswith("has_"):
                 return getattr(t, which)
+            if which == "object-copies":
+                # the Tdf object is copied / deep-copied / pickled (a worker pool does that) - whether that works is not the point; a copy that
+                # exists is an object nobody called allow_write() on and nobody entered: checked when the original's context has ended
+                import copy as _copy
+                import pickle
+
+                for fn_ in (_copy.copy, _copy.deepcopy, lambda o: pickle.loads(pickle.dumps(o))):
+                    try:
+                        self.clones = getattr(self, "clones", []) + [fn_(t)]
+                    except Exception:  # noqa
+                        pass
+                return None
             if which == "iter-first":
                 # a loop over the file that is not run to the end, its iterator kept alive by the caller: it = iter(t); next(it)
                 it = iter(t)
@@ -382,7 +395,7 @@ class Interp:
             # if '==' opened an implicit context on the left operand it has consumed the arm like any context; if it raised
             # before opening anything the arm is untouched - learn which from the object's documented mode flag
             self.armed = getattr(t, "_mode", "rb") == "r+b"
-        implicit = not was_inside and which not in ("nBytes", "copy", "copy-into-directory", "len", "eq", "eq-bare")
+        implicit = not was_inside and which not in ("nBytes", "copy", "copy-into-directory", "len", "eq", "eq-bare", "object-copies")
         if implicit:
             self.stats["implicit-open"] += 1
             self.armed = False  # an implicit context consumes the arm as any context exit does
@@ -401,6 +414,42 @@ class Interp:
                 self.ctx.fail(f"reader-{which}/descriptor-leak", f"reader {which} called outside a context changed the number of open descriptors {fds0} -> {nfds()}")
             if getattr(t, "_inside_context", False):
                 self.ctx.fail(f"reader-{which}/still-inside", f"after reader {which} the object believes it is still inside a context")
+
+    def check_clones(self):
+        """copies of the object taken earlier (copy / deepcopy / pickle), tried now that the original is outside any context: a mutator on a copy,
+        with no context and no allow_write() of its own, must raise and change nothing; and it holds no open handle of its own"""
+        from basictdf.tdfBlock import BlockType
+
+        from .c07 import labelled_spec
+
+        for c in getattr(self, "clones", []):
+            before = self.read()
+            live = list(self.live)
+            absent = [n for n in ("events", "emg", "optical", "platCal") if reftdf.TYPE_CODE[n] not in live]
+            raised = True
+            try:
+                if live:
+                    c.remove_block(BlockType(live[0]))
+                elif absent:
+                    c.add_block(specs.build(labelled_spec(absent[0], 1)))
+                raised = False
+            except Exception:  # noqa
+                pass
+            self.stats["copies-of-the-object-tried"] = self.stats.get("copies-of-the-object-tried", 0) + 1
+            if self.read() != before:
+                self.ctx.fail("object-copy/mutator-changes-file", "a copy (copy.copy / deepcopy / pickle) of a Tdf object taken inside its context was handed a mutator after that "
+                                                                  "context had ended - no context, no allow_write() of its own - and the file changed")
+                self.resync()
+            elif not raised:
+                self.ctx.fail("object-copy/mutator-not-refused", "a mutator on a copy of a Tdf object, outside any context, did not raise")
+            h = getattr(c, "handler", None)
+            if h is not None and not h.closed and h is not getattr(self.tdf, "handler", None):
+                self.ctx.fail("object-copy/own-handle-left-open", "a copy of a Tdf object holds an open file handle of its own after the original's context ended")
+                try:
+                    h.close()
+                except Exception:  # noqa
+                    pass
+        self.clones = []
 
     def check_copy_is_read_only(self, cp):
         """the object returned by copy() never saw allow_write(): a mutation through it, in a plain context, must raise and leave the copy untouched"""
@@ -458,6 +507,8 @@ MODES = {
     "no-context-after-a-write-session-whose-close-failed": [{"op": "limited-session"}],
     "double-allow_write-then-two-contexts": [{"op": "allow_write"}, {"op": "allow_write"}, {"op": "enter"}, {"op": "exit"}, {"op": "enter"}],
     "armed-then-unfinished-loop-over-the-file": [{"op": "allow_write"}, {"op": "read", "which": "iter-first", "k": 0}],
+    "copied-inside-a-write-context-then-left": [{"op": "allow_write"}, {"op": "enter"}, {"op": "read", "which": "object-copies", "k": 0}, {"op": "exit"}],
+    "copied-inside-a-read-context-then-left": [{"op": "enter"}, {"op": "read", "which": "object-copies", "k": 0}, {"op": "exit", "exception": True}],
     "unfinished-loop-then-armed": [{"op": "read", "which": "iter-zip", "k": 1}, {"op": "allow_write"}],
 }
 
